@@ -25,6 +25,33 @@ theorem cast_sgn (s : Bool) (q : Rat) :
     (((if s then -q else q : Rat)) : K) = sgn s * (q : K) := by
   cases s <;> simp [sgn]
 
+omit [CharZero K] in
+theorem dedupDeltas_sound (M : TModel K n) (τ : Asg n) : ∀ l : List Obj,
+    evalObjs M τ (dedupDeltas l) = evalObjs M τ l
+  | [] => rfl
+  | o :: rest => by
+    have ih := dedupDeltas_sound M τ rest
+    unfold dedupDeltas
+    by_cases h : (o.isDelta && rest.head? == some o) = true
+    · rw [if_pos h, ih]
+      simp only [Bool.and_eq_true, beq_iff_eq] at h
+      obtain ⟨hd, hh⟩ := h
+      cases rest with
+      | nil => simp at hh
+      | cons o' r =>
+        simp only [List.head?_cons, Option.some.injEq] at hh
+        subst hh
+        cases o' with
+        | delta i j =>
+          simp only [evalObjs, List.map_cons, List.prod_cons, evalObj]
+          by_cases hρ : τ i = τ j <;> simp [hρ]
+        | tens t => simp [Obj.isDelta] at hd
+        | sym s => simp [Obj.isDelta] at hd
+        | poly ps e => simp [Obj.isDelta] at hd
+    · rw [if_neg h]
+      simp only [evalObjs, List.map_cons, List.prod_cons] at ih ⊢
+      rw [ih]
+
 theorem normTerm_sound (m : OrbModel n) (M : TModel K n) (hM : Respects M) (ρ : Asg n) (t : Term)
     (hwf : wfTerm t = true) (hρ : AdmOn m ρ t.free) :
     match normTerm t with
@@ -59,7 +86,7 @@ theorem normTerm_sound (m : OrbModel n) (M : TModel K n) (hM : Respects M) (ρ :
     unfold evalTerm
     simp only
     rw [sumOver_congr' m t.contr _
-      (fun τ => sgn s * evalObjs M τ (os.mergeSort (fun a b => codeLe a.code b.code))) ρ,
+      (fun τ => sgn s * evalObjs M τ (dedupDeltas (os.mergeSort (fun a b => codeLe a.code b.code)))) ρ,
       sumOver_mul_left, cast_sgn]
     · have hp : t.contr.Perm (sortIdx t.contr) := (List.mergeSort_perm _ _).symm
       rw [← sumOver_perm m hp hnd]
@@ -68,7 +95,7 @@ theorem normTerm_sound (m : OrbModel n) (M : TModel K n) (hM : Respects M) (ρ :
       have := canonObjs_sound m M hM τ t.objs (hadm τ h1 h2)
       rw [hc] at this
       simp only at this
-      rw [this, evalObjs_perm M τ (List.mergeSort_perm os _)]
+      rw [this, dedupDeltas_sound, evalObjs_perm M τ (List.mergeSort_perm os _)]
 
 omit [CharZero K] in
 theorem evalExpr_nil (m : OrbModel n) (M : TModel K n) (ρ : Asg n) :
